@@ -3,7 +3,7 @@
    Models: Dec/StdBind.v (encoding/json), Dec/SonicBind.v (sonic), Dec/FieldMap.v, Dec/Range.v, Dec/Trailing.v. *)
 From Coq Require Import NArith ZArith List Bool String.
 From SV.Dec Require Import Ty Val Parse Text Num Common FieldMap FieldMapProofs FieldLookup Range Trailing StdBind SonicBind
-  DecProofs OptProofs DecProofs2 Witness Witness2 Compile Exec ExecProofs ExecWitness.
+  DecProofs OptProofs DecProofs2 Witness Witness2 Compile Exec ExecProofs ExecWitness Code Sim SimTop.
 Import ListNotations.
 Open Scope string_scope.
 
@@ -200,6 +200,52 @@ Theorem C01_il_examples :
   il_unmarshal h1 opts_std ex2_ty ex2_in ex2_v0 = Ok ex2_out /\ il_unmarshal h1 opts_default ex2_ty ex2_in ex2_v0 = Ok ex2_out.
 Proof. exact il_examples. Qed.
 Print Assumptions C01_il_examples.
+
+(* ------------------------------------------------------------------ the compiled programs, composite types
+
+   (1) the label discipline of the compiler (pc / pin / rel on the growing program) yields, for every type of the fragment
+   `ilf` (scalars, string, json.Number, interface{}, pointers, slices, nested arbitrarily), a block whose content depends
+   only on its position: compileOps sp t p = p ++ code t (length p), with every jump target of `code` written out as
+   base + offset (Dec/Code.v). *)
+Theorem C01_compile_code : forall t, ilf t = true -> forall sp p, compileOps sp t p = (p ++ code t (List.length p))%list.
+Proof. exact compile_code. Qed.
+Print Assumptions C01_compile_code.
+
+(* (2) simulation: for bool, every integer width, float32, float64, string, interface{}, and pointers / slices of those
+   nested arbitrarily, running `compile t` with the IL interpreter (CheckTrailings included) gives the result of the
+   tree-level binder - every input (malformed ones included), option set, initial value (hidden slice elements included)
+   and hash - unless one of the two answers Unk (interpreter out of fuel / escape validation of skipped text under
+   ValidateString, which the tree model leaves open). *)
+Theorem C01_il_sim : forall (h : bytes -> N) (o : opts) t s v, simf t = true ->
+  compat (il_unmarshal h o t s v) (sonic_unmarshal h Jit o t s v).
+Proof. exact il_sim. Qed.
+Print Assumptions C01_il_sim.
+
+(* (3) hence C01_bind_agree speaks about the compiled program on the common fragment *)
+Theorem C01_il_sim_agree : forall (h : bytes -> N) (o : opts) t s v,
+  simf t = true -> frag t = true -> input_ok o s -> (forall j, parse s = Some j -> guards o j) ->
+  match parse s with
+  | Some j => compat (il_unmarshal h o t s v) (std_unmarshal o t s v)
+  | None => std_unmarshal o t s v = Err /\
+            (il_unmarshal h o t s v = Err \/ il_unmarshal h o t s v = Unk \/ sonic_unmarshal h Jit o t s v = Unk \/
+             skipped_only_structural h o t s v)
+  end.
+Proof. exact il_sim_vs_std. Qed.
+Print Assumptions C01_il_sim_agree.
+
+(* not vacuous: nested slices and pointers with a pre-populated destination (hidden elements reused), both answers are
+   values; a malformed document is an error for both *)
+Theorem C01_il_sim_nonvacuous :
+  let t := TSlice (TPtr (TSlice (TInt I64))) in
+  let v0 := VList [VPtr (VList [VInt 7] [VInt 8])] [VNil; VPtr (VList [] [VInt 9])] in
+  simf t = true /\
+  il_unmarshal h1 opts_std t (b " [[1,2], null ,[3]] ") v0 =
+    Ok (VList [VPtr (VList [VInt 1; VInt 2] []); VNil; VPtr (VList [VInt 3] [])] []) /\
+  sonic_unmarshal h1 Jit opts_std t (b " [[1,2], null ,[3]] ") v0 =
+    Ok (VList [VPtr (VList [VInt 1; VInt 2] []); VNil; VPtr (VList [VInt 3] [])] []) /\
+  il_unmarshal h1 opts_default t (b "[[1,2],]") v0 = Err /\ sonic_unmarshal h1 Jit opts_default t (b "[[1,2],]") v0 = Err.
+Proof. repeat split; vm_compute; reflexivity. Qed.
+Print Assumptions C01_il_sim_nonvacuous.
 
 (* ------------------------------------------------------------------ clauses the faithful model violates
    (each witness is replayed on the real code from corpus/C01 and listed in known_findings.d/C01.json) *)
